@@ -6,6 +6,7 @@ import ZnVerif.Proofs.BinSearch
 import ZnVerif.Proofs.NumberForm
 import ZnVerif.Spec.Keywords
 import ZnVerif.Generated.Tokens
+import ZnVerif.Proofs.LexSegment
 
 namespace ZnVerif.Properties.C04
 open ZnVerif ZnVerif.Model ZnVerif.Spec ZnVerif.Generated
@@ -173,5 +174,101 @@ example : (0x4E0D, [([0x4E3A], 2, 50), ([0x5927, 0x4E8E], 3, 52), ([0x7B49, 0x4E
       [([0x4E3A], 2, 50), ([0x5927, 0x4E8E], 3, 52), ([0x7B49, 0x4E8E], 3, 51), ([0x5C0F, 0x4E8E], 3, 53)]
     ∧ [0x5927, 0x4E8E] <+: [0x5927, 0x4E8E, 0x32, 0x30] := by decide
 example : ([0x4E0D, 0x5927, 0x4E8E], 52) ∈ Keywords.denoted Tokens.keywordTable := by decide
+
+/-! ### The lexer on unspaced text (model: `Model/Lexer.lean`, the whole `NextToken`) -/
+
+
+/-- the documented keyword list is prefix-free: no keyword is a prefix of another one -/
+theorem documented_prefix_free :
+    ∀ a ∈ Keywords.documented, ∀ b ∈ Keywords.documented, a.1 <+: b.1 → a = b := by decide
+
+/-- the full statement of the property's first sentence: for EVERY text the tokens are the documented segmentation.
+It cannot hold as such — white space, line breaks, operators, numbers' signs, punctuation, quotes, back-ticks,
+`注` and invalid characters are tokenised by the other scanners (`operator_needs_delimiter`,
+`backtick_is_one_identifier`, the C13 theorems, correspondence) — so the proved theorem restricts the alphabet. -/
+def lex_is_greedy_segmentation_full : Prop :=
+  ∀ s : List Nat, (lexAll (s.length + 2) (mkLexer s) []).1 =
+    (Spec.Segment.segment Keywords.documented s).map tokOf ++ [eofTok s.length]
+
+/-- **Unspaced text is cut greedily into keywords and names** — for every text (any length) over the keyword glyphs
+and the plain name characters (`SegChar`: every identifier character — CJK, Latin, Greek, kana, hangul letters,
+digits, `_ $ ^` … — except 注 and the operator marks `& @ # = < > + - * / | %`), the token stream of the lexer is
+exactly the documented segmentation: at each position the unique documented keyword that matches there is cut out,
+otherwise the character extends the current name; then EOF; no error.  (`_partial` in the alphabet only.) -/
+theorem lex_is_greedy_segmentation_partial (s : List Nat) (hs : ∀ c ∈ s, SegChar c) :
+    (lexAll (s.length + 2) (mkLexer s) []).1 = (Spec.Segment.segment Keywords.documented s).map tokOf ++ [eofTok s.length] ∧
+    (lexAll (s.length + 2) (mkLexer s) []).2.1 = some (.ok ()) := by
+  have hk : ∀ t, Spec.Segment.kwAt D t = Spec.Segment.kwAt Keywords.documented t :=
+    kwAt_congr D Keywords.documented keyword_types_documented documented_prefix_free
+  unfold Spec.Segment.segment
+  rw [← segAux_congr D Keywords.documented hk]
+  cases s with
+  | nil =>
+    have := lexAll_empty 1
+    simpa [segAux_nil, Spec.Segment.flush] using this
+  | cons c r =>
+    rw [lexAll_first c r (hs c List.mem_cons_self)]
+    have := lexAll_seg (c :: r) hs (c :: r).length 0 [] ((c :: r).length + 2) rfl (Nat.zero_le _) (by omega)
+    simpa using this
+
+-- non-vacuity: 如果何为不等于x大 is over the alphabet; its documented segmentation is 如果 | 何为 | 不等于 | x大
+set_option maxRecDepth 100000 in
+example : ∀ c ∈ [0x5982, 0x679C, 0x4F55, 0x4E3A, 0x4E0D, 0x7B49, 0x4E8E, 0x78, 0x5927], SegChar c := by decide +kernel
+example : Spec.Segment.segment Keywords.documented [0x5982, 0x679C, 0x4F55, 0x4E3A, 0x4E0D, 0x7B49, 0x4E8E, 0x78, 0x5927] =
+    [.kw 44 0 2, .kw 46 2 4, .kw 51 4 7, .name 7 9 [0x78, 0x5927]] := by decide
+-- … and the restriction is needed: `+` is an identifier character but an operator mark, so not in the alphabet
+set_option maxRecDepth 100000 in
+example : ¬ SegChar 0x2B ∧ ¬ SegChar 0x6CE8 ∧ ¬ SegChar 0x20 := by decide +kernel
+
+/-- **Between back-ticks no keyword is extracted**: a back-tick, any run of identifier characters (keyword glyphs
+included, also `. * / %`), a back-tick — at the start of a text and followed by anything — is ONE identifier token
+whose name is exactly the run. -/
+theorem backtick_is_one_identifier (w r : List Nat)
+    (hw : ∀ c ∈ w, isIdentifierChar c = true ∨ c ∈ IdRange.idContinue) :
+    (nextToken (mkLexer (Tokens.cBackTick :: (w ++ Tokens.cBackTick :: r)))).1 =
+      .ok { type := Tokens.cTypeIdentifier, literal := w, startIdx := 0, endIdx := w.length + 2 } := by
+  rw [nextToken_first _ _ (by decide) ⟨by decide, by decide, by decide⟩]
+  unfold dispatchToken
+  rw [startState_cur]
+  have a1 : (Tokens.cBackTick == runeEOF) = false := by decide
+  have a2 : (Tokens.cBackTick == Tokens.cCharZHU || Tokens.cBackTick == Tokens.cSlashOp) = false := by decide
+  have a3 : leftQuotes.contains Tokens.cBackTick = false := by decide
+  simp only [a1, a2, a3, Bool.false_eq_true, ↓reduceIte, beq_self_eq_true]
+  unfold parseVarQuote
+  rw [varQuote_run _ w r hw _ [] (startState_rest _ _)]
+  simp [startState]
+
+-- non-vacuity: `如果` between back-ticks (both glyphs are identifier characters) is a name, not the keyword
+set_option maxRecDepth 100000 in
+example : ∀ c ∈ [0x5982, 0x679C], isIdentifierChar c = true ∨ c ∈ IdRange.idContinue := by decide +kernel
+
+/-- **`+ - * /` is an operator token exactly when a delimiter follows** (white space, punctuation or a quote
+character): then it is the one-character token of its type; `/=` is always the two-character not-equal mark;
+otherwise `parseOperators` declines and the character starts (or is) a name or number.  `//` and `/*` never reach
+this point: at a token start they are comments. -/
+theorem operator_needs_delimiter (l : Lexer) (hc : l.cur ∈ arithOps) :
+    (l.cur = Tokens.cSlashOp ∧ l.peek = Tokens.cEqualOp →
+      parseOperators l = (.ok (some { type := Tokens.cTypeNEMark, startIdx := l.cursor, endIdx := l.cursor + 2 }), l.adv.adv)) ∧
+    (¬ (l.cur = Tokens.cSlashOp ∧ l.peek = Tokens.cEqualOp) →
+      ((∃ tk, (parseOperators l).1 = .ok (some tk)) ↔ isDelimiter l.peek = true) ∧
+      (isDelimiter l.peek = true → parseOperators l =
+        (.ok (some { type := arithTokenType l.cur, startIdx := l.cursor, endIdx := l.cursor + 1 }), l.adv)) ∧
+      (isDelimiter l.peek = false → parseOperators l = (.ok none, l))) ∧
+    (l.cur = Tokens.cSlashOp → (l.peek = Tokens.cSlashOp ∨ l.peek = Tokens.cMultiplyOp) →
+      ∃ tk, (dispatchToken l).1 = .ok tk ∧ tk.type = Tokens.cTypeComment ∧ tk.startIdx = l.cursor) := by
+  refine ⟨?_, ?_, fun h1 h2 => dispatch_slash_comment l h1 h2⟩
+  · rintro ⟨h1, h2⟩
+    rw [parseOperators_arith l hc]
+    simp [h1, h2]
+  · intro hne
+    have hcond : (l.cur == Tokens.cSlashOp && l.peek == Tokens.cEqualOp) = false := by
+      rw [Bool.eq_false_iff]; intro h; apply hne; simpa using h
+    rw [parseOperators_arith l hc]
+    simp only [hcond, Bool.false_eq_true, ↓reduceIte]
+    cases hd : isDelimiter l.peek <;> simp
+
+-- non-vacuity: `+` before a space is the operator; `+` before `1` is not (it will be the sign of a number)
+example : (0x2B : Nat) ∈ arithOps ∧ isDelimiter 0x20 = true ∧ isDelimiter 0x31 = false ∧
+    isDelimiter 0xFF08 = true ∧ isDelimiter 0x201C = true := by decide
 
 end ZnVerif.Properties.C04
